@@ -128,6 +128,18 @@ def design(chk: Check, pid: str, tier: str) -> None:
                                   properties=['LateWaiterPasses']),
                      'PyThreading regression: a waiter arriving after clear() is lost',
                      expect_violation='temporal', workers=2)
+        # unbounded number of generations (= boards): an inductive invariant of
+        # the reusable barrier, discharged symbolically by Apalache
+        steps = [('IndInit', 'IndInv', 1)] if quick else \
+            [('Init', 'IndInv', 0), ('IndInit', 'IndInv', 1), ('IndInit', 'BarrierSafety', 0),
+             ('IndInit', 'NoStuck', 0)]
+        apa = [tlc.run_apalache('BarrierInd', i_, v_, n_) for (i_, v_, n_) in steps]
+        chk.extra['apalache_barrier_inductive'] = apa
+        for a in apa:
+            if not a['ok']:
+                chk.violation(f'model:BarrierInd:{a["inv"]}',
+                              f'Apalache: {a["inv"]} from {a["init"]} at length {a["length"]}: {a["outcome"]}',
+                              {'kind': 'apalache', **a})
         from . import selfcheck
         chk.extra['baton_selfcheck'] = selfcheck.run(seed())
         run_model(chk, 'Table: 4 seats, 1 passed-out board, every interleaving; no deadlock, '
